@@ -320,10 +320,17 @@ fn case(m: &mut Mon, r: &mut Rng, _idx: u64) {
                 1 => r.u64() & 0x800f_ffff_ffff_ffff,      // subnormals
                 2 => ((r.u64() >> 12) as f64 / (1 + (r.u64() >> 50)) as f64).to_bits(),
                 3 => (r.range(-50, 50) as f64 / r.range(1, 40) as f64).to_bits(),
+                // ulp between 1/8 and 16: the rounding interval's ends are integers or halves, so the simplest
+                // member is often an END of the interval (tie rule: end included only for an even mantissa)
+                4 => (r.u64() & 0x800f_ffff_ffff_ffff & !(r.below(8))) | ((1023 + 49 + r.below(8)) << 52),
                 _ => r.u64(),
             };
             let f64v = f64::from_bits(bits64);
-            let f32v = if r.bool() { f64v as f32 } else { f32::from_bits(r.u32()) };
+            let f32v = match r.below(3) {
+                0 => f64v as f32,
+                1 => f32::from_bits((r.u32() & 0x807f_ffff & !(r.below(8) as u32)) | ((127 + 20 + r.below(8) as u32) << 23)),
+                _ => f32::from_bits(r.u32()),
+            };
             let d = || if is32 { format!("simplest_from_f32 {:e} (bits {:#x})", f32v, f32v.to_bits()) } else { format!("simplest_from_f64 {:e} (bits {:#x})", f64v, bits64) };
             m.check(if is32 { "simplest_from_f32" } else { "simplest_from_f64" }, "", Some(if is32 { f32v.to_bits() as u64 } else { bits64 }), &d, || {
                 let (fv, fmt, got) = if is32 {
@@ -423,7 +430,7 @@ fn main() {
         prop: "C18",
         quick_cases: 120_000,
         thorough_cases: 4_000_000,
-        rule: "is_simpler_than against the documented lexicographic order (pairs with equal denominators / equal magnitudes included); simplest_in with equal, swapped, negative, sign-straddling, zero and integer endpoints and very narrow intervals, judged by an independent continued-fraction oracle (self-tested against brute force over denominators on 3000 small intervals every run); next_up/next_down/nearest against brute force over all denominators <= limit (limit 1..250, thorough 1500) incl. integers and fitting denominators; simplest_from_f32/f64 (powers of two, subnormals, ratios, random patterns) and simplest_from_float (3 bases x 6 modes, power-of-base boundaries) must convert back to the same float (own IEEE / round_ref reference) and equal the simplest fraction of the exact rounding interval.",
+        rule: "is_simpler_than against the documented lexicographic order (pairs with equal denominators / equal magnitudes included); simplest_in with equal, swapped, negative, sign-straddling, zero and integer endpoints and very narrow intervals, judged by an independent continued-fraction oracle (self-tested against brute force over denominators on 3000 small intervals every run); next_up/next_down/nearest against brute force over all denominators <= limit (limit 1..250, thorough 1500) incl. integers and fitting denominators; simplest_from_f32/f64 (powers of two, subnormals, ratios, ulp 1/8..16 where interval ends are integers or halves, random patterns) and simplest_from_float (3 bases x 6 modes, power-of-base boundaries) must convert back to the same float (own IEEE / round_ref reference) and equal the simplest fraction of the exact rounding interval.",
         assumptions: &["nearest()'s sign follows its doc-test (Positive = result above self)", "a tie in nearest() may resolve to either neighbour", "simplest_in(x, x) = x as documented"],
         required: &[("is_simpler_than", false), ("simplest_in/", false), ("farey/", false), ("simplest_from_f32", false), ("simplest_from_f64", false), ("simplest_from_fbig", false)],
         case,
